@@ -57,7 +57,14 @@ def run(ctx):
     for v in wviol:
         if v["sig"] in ("phc-bound",):
             viol.append({"sig": "phc-value-not-current", "detail": v["detail"], "replay": v.get("replay", "")})
-    inconclusive = incon or wincon
+    # ... and the real poller (persistent across polls) over a real socket, PHC file rewritten or removed per poll.
+    from . import c13real
+    real = c13real.run_real(ctx)
+    for v in real["violations"]:
+        if v["sig"] == "real-poller-measurement":
+            viol.append({"sig": "phc-value-not-current", "detail": v["detail"], "replay": v.get("replay", "")})
+    ctx.log("real poller: %s scripts, %s steps" % (real.get("evaluations"), real.get("steps")))
+    inconclusive = incon or wincon or real.get("inconclusive")
     if agg["shards_lost"]:
         inconclusive = "%d shards did not finish" % agg["shards_lost"]
     elif judged < agg["evaluations"] * 0.99 and not viol:
